@@ -29,7 +29,7 @@ RULE = ("step: every UTC-offset transition 2000-01-01..2037-12-31 of every zone 
 ASSUMPTIONS = ["the hourly data class builds whole local days of on-the-hour instants; windows are built the same way (pandas date_range over local wall-clock days)",
                "the second occurrence of a repeated hour may carry any value between its neighbours' slots (it is synthesised)"]
 REQUIRED_REACH = {"step.transitions": 15000, "step.ok": 14000, "e2e.predict_judged": 40, "e2e.rows": 50000, "e2e.span_with_transition": 10,
-                  "e2e.finiteness_rows": 2000, "e2e.zone_pairs_in_one_process": 2, "e2e.frame_without_a_modelable_row": 6, "e2e.frame_with_exactly_one_unmodelable_row": 30, "e2e.daily_rows_at_fixed_instants_24h_apart": 8, "e2e.imported_2_0_model_judged": 20}
+                  "e2e.finiteness_rows": 2000, "e2e.zone_pairs_in_one_process": 2, "e2e.frame_without_a_modelable_row": 6, "e2e.frame_with_exactly_one_unmodelable_row": 30, "e2e.daily_rows_at_fixed_instants_24h_apart": 8, "e2e.imported_2_0_model_judged": 20, "e2e.irradiance_gaps": 6}
 LO, HI = dt.datetime(2000, 1, 1), dt.datetime(2038, 1, 1)
 
 VIOL = []
@@ -236,6 +236,8 @@ def e2e_case(spec, keys):
     n = 0
     for sname, start, days, tr in spans:
         variants = ["plain", "no-usage", "gaps"] if sname != "two-years" else ["plain"]
+        if hourlyish and sname != "two-years":
+            variants += ["gaps:no-usage"]          # weather gaps (temperature, irradiance) on reporting data without a usage column
         if not hourlyish and sname in ("year", "transition-inside"):
             # frames in which NO row can be modelled still come back with one (non-finite) row per timestamp
             variants += ["no-temperature-at-all", "no-temperature-at-all:no-usage", "usage-only-on-days-without-temperature"]
@@ -267,9 +269,16 @@ def e2e_case(spec, keys):
                 row = 0 if "first-row" in variant else int(rng.integers(1, len(df) - 2))
                 df.iloc[row, df.columns.get_loc(col)] = np.nan if (col == "temperature" or rng.random() < 0.5) else 0.0      # a zero electricity read is a missing read
                 I.reach("e2e.frame_with_exactly_one_unmodelable_row")
-            if variant == "gaps":
+            if variant.startswith("gaps"):
                 kk = rng.choice(len(df), size=max(1, len(df) // 15), replace=False)
                 df.iloc[kk, df.columns.get_loc("temperature")] = np.nan
+                if "ghi" in df.columns:
+                    # outages of the irradiance feed: isolated hours and a run of a day and a half
+                    kg = rng.choice(len(df), size=max(1, len(df) // 20), replace=False)
+                    df.iloc[kg, df.columns.get_loc("ghi")] = np.nan
+                    a_ = int(rng.integers(0, max(1, len(df) - 40)))
+                    df.iloc[a_:a_ + 36, df.columns.get_loc("ghi")] = np.nan
+                    I.reach("e2e.irradiance_gaps")
                 if "observed" in df.columns:
                     k2 = rng.choice(len(df), size=max(1, len(df) // 20), replace=False)
                     df.iloc[k2, df.columns.get_loc("observed")] = np.nan
@@ -316,7 +325,7 @@ def e2e_case(spec, keys):
                     i = int(np.argmax(np.isfinite(y) != exp))
                     add("daily-prediction-finiteness-pattern:%s" % fam.kind, "%s span in %s (%s): row %s predicted=%r temperature=%r" % (sname, tz, variant, p.index[i], y[i], T[i]),
                         span=sname, variant=variant, **tag)
-            if tr is not None or variant == "gaps":
+            if tr is not None or variant.startswith("gaps"):
                 keys.add("%s|%s|%s|%s|%s" % (spec["family"], tz, sname, start, variant))
     return n
 
